@@ -40,6 +40,66 @@ enum Arg {
     Semi,
     /// a call `F<j+1>%(n)` of the case's function number `j`; the function returns `n + 1`
     Call(usize, i64),
+    /// an item whose evaluation raises a run-time error as long as its variable has its initial value
+    /// (family `trapped`: the statement is abandoned in the middle of its list under an active error trap)
+    Fail(FailKind),
+}
+
+#[derive(Clone, Copy, Debug, PartialEq)]
+enum FailKind {
+    /// `10 / Z%` with Z% = 0 (Division by zero); 2 once the handler has set Z% = 5
+    DivZero,
+    /// `M% * 2` with M% = 20000 (Overflow); 6 once the handler has set M% = 3
+    Overflow,
+    /// `CHR$(C%)` with C% = 300 (Illegal function call); "A" once the handler has set C% = 65
+    Ifc,
+}
+
+impl FailKind {
+    fn source(self) -> &'static str {
+        match self {
+            FailKind::DivZero => "10 / Z%",
+            FailKind::Overflow => "M% * 2",
+            FailKind::Ifc => "CHR$(C%)",
+        }
+    }
+    fn repaired(self) -> Val {
+        match self {
+            FailKind::DivZero => Val::Int(2),
+            FailKind::Overflow => Val::Int(6),
+            FailKind::Ifc => Val::Str(vec!['A']),
+        }
+    }
+}
+
+/// how the error raised inside a PRINT list is trapped
+#[derive(Clone, Copy, Debug, PartialEq)]
+enum Trap {
+    /// ON ERROR RESUME NEXT
+    ResumeNext,
+    /// ON ERROR GOTO Trap, the handler ends in RESUME NEXT
+    HandlerResumeNext,
+    /// ON ERROR GOTO Trap, the handler repairs the operands and ends in RESUME: the statement runs again from its start
+    HandlerRepairResume,
+}
+
+impl Trap {
+    fn name(self) -> &'static str {
+        match self {
+            Trap::ResumeNext => "on-error-resume-next",
+            Trap::HandlerResumeNext => "handler-resume-next",
+            Trap::HandlerRepairResume => "handler-repair-resume",
+        }
+    }
+}
+
+/// a history with failing items, run under an error trap; `handler`: PRINT statements the handler executes first
+#[derive(Clone, Debug)]
+struct TrapCase {
+    case: Case,
+    trap: Trap,
+    handler: Vec<Stmt>,
+    fam: &'static str,
 }
 
 #[derive(Clone, Copy, Debug, PartialEq, Eq, PartialOrd, Ord)]
@@ -137,7 +197,49 @@ fn stmt_source(s: &Stmt) -> String {
             Arg::Comma => t.push(','),
             Arg::Semi => t.push(';'),
             Arg::Call(j, n) => t.push_str(&format!("F{}%({})", j + 1, n)),
+            Arg::Fail(k) => t.push_str(k.source()),
         }
+    }
+    t
+}
+
+/// the program of a trapped history: trap, operands of the failing items, files, statements, END, handler, functions
+fn trap_source(tc: &TrapCase, worker: usize) -> String {
+    let c = &tc.case;
+    let mut t = String::new();
+    for j in 0..c.funcs.len() {
+        t.push_str(&format!("DECLARE FUNCTION F{}% (X%)\n", j + 1));
+    }
+    t.push_str(if tc.trap == Trap::ResumeNext { "ON ERROR RESUME NEXT\n" } else { "ON ERROR GOTO Trap\n" });
+    t.push_str("Z% = 0\nM% = 20000\nC% = 300\n");
+    for &h in &c.open {
+        t.push_str(&format!("OPEN \"{}\" FOR OUTPUT AS #{}\n", file_name(h, worker), h));
+    }
+    for s in &c.stmts {
+        t.push_str(&stmt_source(s));
+        t.push('\n');
+    }
+    t.push_str("END\n");
+    if tc.trap != Trap::ResumeNext {
+        t.push_str("Trap:\n");
+        for s in &tc.handler {
+            t.push_str(&stmt_source(s));
+            t.push('\n');
+        }
+        if tc.trap == Trap::HandlerRepairResume {
+            t.push_str("Z% = 5\nM% = 3\nC% = 65\nRESUME\n");
+        } else {
+            t.push_str("RESUME NEXT\n");
+        }
+    }
+    for (j, body) in c.funcs.iter().enumerate() {
+        t.push_str(&format!("FUNCTION F{}% (X%)\n", j + 1));
+        for s in body {
+            t.push_str("  ");
+            t.push_str(&stmt_source(s));
+            t.push('\n');
+        }
+        t.push_str(&format!("  F{}% = X% + 1\nEND FUNCTION\n", j + 1));
     }
     t
 }
@@ -205,6 +307,9 @@ fn stmt_sx(s: &Stmt) -> String {
             Arg::Comma => t.push('c'),
             Arg::Semi => t.push('s'),
             Arg::Call(j, n) => t.push_str(&format!("(k {} {})", j, n)),
+            // the model has no failing items: the trapped family lays the history out (`trap_sx`), a failing item that
+            // is reached there has its repaired value
+            Arg::Fail(k) => t.push_str(&val_sx(&k.repaired())),
         }
     }
     t.push_str("))");
@@ -330,7 +435,7 @@ fn hand_lowered(c: &Case) -> InstructionGeneratorResult {
                 }
                 Arg::Comma => push(Instruction::PrintComma),
                 Arg::Semi => push(Instruction::PrintSemicolon),
-                Arg::Call(..) => unreachable!("calls are exercised at source level only"),
+                Arg::Call(..) | Arg::Fail(_) => unreachable!("calls and failing items are exercised at source level only"),
             }
         }
         push(Instruction::PrintEnd);
@@ -380,6 +485,32 @@ fn run_real(c: &Case, worker: usize) -> (Outcome, Option<Vec<String>>, String) {
         }
     }
     (out, tags, text)
+}
+
+/// Runs a program text (source level) on the real code; the sinks are stdout, LPT1 and the files `open`.
+fn run_real_text(text: &str, open: &[u8], worker: usize) -> Outcome {
+    for &h in &[1u8, 2] {
+        let _ = std::fs::remove_file(file_name(h, worker));
+    }
+    let mut out = Outcome::default();
+    match std::panic::catch_unwind(|| compile(text)) {
+        Err(_) => out.status = "panic:front-end".to_owned(),
+        Ok(Err(e)) => out.status = format!("front-end:{}", format!("{:?}", e).chars().take(80).collect::<String>()),
+        Ok(Ok((igr, udt))) => {
+            match std::panic::catch_unwind(std::panic::AssertUnwindSafe(|| run_instructions(igr, udt, b"", 2_000_000, None, false))) {
+                Err(_) => out.status = "panic".to_owned(),
+                Ok(r) => {
+                    out.status = status_of(&r.result);
+                    out.sinks.push(r.stdout);
+                    out.sinks.push(r.lpt1);
+                    for &h in open {
+                        out.sinks.push(std::fs::read(file_name(h, worker)).unwrap_or_else(|_| b"<no file>".to_vec()));
+                    }
+                }
+            }
+        }
+    }
+    out
 }
 
 // ------------------------------------------------------------------------------------------------
@@ -525,6 +656,8 @@ mod reference {
         Ifc,
         Tm,
         NoFile,
+        /// a failing item (`Arg::Fail`) was reached before the handler repaired its operand
+        Fail,
     }
 
     /// ± mant/10^scale rounded to k fractional digits -> (negative, integer digits, k fraction digits)
@@ -659,14 +792,18 @@ mod reference {
     /// An item that calls a FUNCTION: the statements of the function's body run first, each a complete statement
     /// on its own device; then the returned value is laid out by THIS statement, on its own device, with its own
     /// format cursor; the newline decision at the end depends only on this statement's own last item.
-    fn stmt(sinks: &mut BTreeMap<Dev, Sink>, funcs: &[Vec<Stmt>], s: &Stmt) -> Result<(), E> {
+    ///
+    /// `fixed`: the operands of the failing items have been repaired (they have their second value). An item that
+    /// fails ends the statement there: what the items in front of it wrote stays, nothing else is written, in
+    /// particular no CR LF (the rule of the property for a statement that does not reach its end).
+    fn stmt(sinks: &mut BTreeMap<Dev, Sink>, funcs: &[Vec<Stmt>], s: &Stmt, fixed: bool) -> Result<(), E> {
         let fmt = s.fmt.as_ref();
         let mut cursor = 0usize;
         for a in &s.args {
             match a {
                 Arg::Call(j, n) => {
                     for callee in &funcs[*j] {
-                        stmt(sinks, funcs, callee)?;
+                        stmt(sinks, funcs, callee, fixed)?;
                     }
                     let v = Val::Int(*n + 1);
                     let t = match fmt {
@@ -679,6 +816,17 @@ mod reference {
                     let t = match fmt {
                         None => plain_text(v),
                         Some(f) => using_value(f, &mut cursor, v)?,
+                    };
+                    sinks.get_mut(&s.dev).ok_or(E::NoFile)?.text(&t);
+                }
+                Arg::Fail(k) => {
+                    if !fixed {
+                        return Err(E::Fail);
+                    }
+                    let v = k.repaired();
+                    let t = match fmt {
+                        None => plain_text(&v),
+                        Some(f) => using_value(f, &mut cursor, &v)?,
                     };
                     sinks.get_mut(&s.dev).ok_or(E::NoFile)?.text(&t);
                 }
@@ -706,13 +854,14 @@ mod reference {
         }
         let mut status = "ok";
         for s in &c.stmts {
-            match stmt(&mut sinks, &c.funcs, s) {
+            match stmt(&mut sinks, &c.funcs, s, false) {
                 Ok(()) => {}
                 Err(e) => {
                     status = match e {
                         E::Ifc => "illegal-function-call",
                         E::Tm => "type-mismatch",
                         E::NoFile => "file-not-open",
+                        E::Fail => "runtime-error",
                     };
                     break;
                 }
@@ -724,6 +873,58 @@ mod reference {
             Outcome { status: status.to_owned(), sinks: order.iter().map(|d| utf8(&sinks[d].out)).collect() },
             order.iter().map(|d| sinks[d].col).collect(),
         )
+    }
+
+    /// true when the statement runs to its end once the operands of its failing items are repaired (no error of
+    /// PRINT USING itself)
+    pub fn completes_when_fixed(s: &Stmt) -> bool {
+        let mut sinks: BTreeMap<Dev, Sink> = BTreeMap::new();
+        for d in [Dev::Screen, Dev::Lpt1, Dev::File(1), Dev::File(2)] {
+            sinks.insert(d, Sink::default());
+        }
+        stmt(&mut sinks, &[], s, true).is_ok()
+    }
+
+    /// A history under an error trap. A statement whose item fails is abandoned where it failed (see `stmt`); the
+    /// handler's own PRINT statements run (complete statements, like any other); then the run goes on with the next
+    /// statement (`resume_same` false: ON ERROR RESUME NEXT, or a handler ending in RESUME NEXT), or with the same
+    /// statement from its start, its operands repaired (`resume_same`: RESUME). The next statement starts as after
+    /// any statement: nothing of the abandoned one is pending. Status `loops` = the statement fails again after the
+    /// repair (such programs are not generated).
+    pub fn run_trapped(c: &Case, resume_same: bool, handler: &[Stmt]) -> Outcome {
+        let mut sinks: BTreeMap<Dev, Sink> = BTreeMap::new();
+        sinks.insert(Dev::Screen, Sink::default());
+        sinks.insert(Dev::Lpt1, Sink::default());
+        for &h in &c.open {
+            sinks.insert(Dev::File(h), Sink::default());
+        }
+        let mut status = "ok";
+        let mut fixed = false;
+        let mut k = 0;
+        'run: while k < c.stmts.len() {
+            match stmt(&mut sinks, &c.funcs, &c.stmts[k], fixed) {
+                Ok(()) => k += 1,
+                Err(_) => {
+                    for h in handler {
+                        if stmt(&mut sinks, &c.funcs, h, fixed).is_err() {
+                            status = "error-in-handler";
+                            break 'run;
+                        }
+                    }
+                    if !resume_same {
+                        k += 1;
+                    } else if fixed {
+                        status = "loops";
+                        break;
+                    } else {
+                        fixed = true;
+                    }
+                }
+            }
+        }
+        let order: Vec<Dev> =
+            [Dev::Screen, Dev::Lpt1].into_iter().chain(c.open.iter().map(|h| Dev::File(*h))).collect();
+        Outcome { status: status.to_owned(), sinks: order.iter().map(|d| utf8(&sinks[d].out)).collect() }
     }
 }
 
@@ -996,6 +1197,316 @@ fn fixed_call_cases() -> Vec<Case> {
     v
 }
 
+// ------------------------------------------------------------------------------------------------
+// family `trapped` (after the wave-10 seed `PrintState::reset keeps the pending separator`, which the check missed: no
+// history had a trapped error inside a PRINT list): a PRINT-family statement fails in the middle of its list under
+// an active error trap and is abandoned; every kind of next PRINT-family statement follows, on the same and on
+// another device. Compared with the reference only (`reference::run_trapped`): the Lean model has no failing items.
+// ------------------------------------------------------------------------------------------------
+
+fn marks(open: &[u8]) -> Vec<Stmt> {
+    [Dev::Screen, Dev::Lpt1]
+        .into_iter()
+        .chain(open.iter().map(|h| Dev::File(*h)))
+        .map(|d| Stmt { dev: d, fmt: None, args: vec![Arg::Comma, Arg::Expr(Val::Str(vec!['|']))] })
+        .collect()
+}
+
+const TRAP_SHAPES: [&str; 10] = [
+    "first-item", "after-semicolon", "after-comma", "between-items", "after-comma-then-trailing-semicolon",
+    "after-two-separators", "using-second-value", "using-first-value", "using-type-mismatch", "after-a-call",
+];
+
+/// the failing statement of the matrix
+fn trap_shape(shape: usize, dev: Dev, k: FailKind) -> Stmt {
+    let s = |t: &str| Arg::Expr(Val::Str(t.chars().collect()));
+    let i = |n: i64| Arg::Expr(Val::Int(n));
+    let fm = |t: &str| Some(t.chars().collect::<Vec<char>>());
+    // a numeric field takes no string
+    let kn = if k == FailKind::Ifc { FailKind::DivZero } else { k };
+    let (fmt, args) = match shape {
+        0 => (None, vec![Arg::Fail(k)]),
+        1 => (None, vec![s("ab"), Arg::Semi, Arg::Fail(k)]),
+        2 => (None, vec![s("ab"), Arg::Comma, Arg::Fail(k)]),
+        3 => (None, vec![s("ab"), Arg::Semi, Arg::Fail(k), Arg::Semi, s("z")]),
+        4 => (None, vec![i(1), Arg::Comma, Arg::Fail(k), Arg::Semi]),
+        5 => (None, vec![i(1), Arg::Semi, i(-2), Arg::Comma, Arg::Semi, Arg::Fail(k)]),
+        6 => (fm("## x"), vec![i(7), Arg::Semi, Arg::Fail(kn)]),
+        7 => (fm("A: # B: # C"), vec![Arg::Fail(kn), Arg::Semi, i(3)]),
+        8 => (fm("[##]"), vec![i(7), Arg::Semi, s("s")]),
+        _ => (None, vec![Arg::Call(0, 2), Arg::Semi, Arg::Fail(k)]),
+    };
+    Stmt { dev, fmt, args }
+}
+
+const TRAP_NEXTS: [&str; 5] = ["bare", "value", "trailing-semicolon", "comma-only", "using"];
+
+fn trap_next(kind: usize, dev: Dev) -> Stmt {
+    let (fmt, args) = match kind {
+        0 => (None, vec![]),
+        1 => (None, vec![Arg::Expr(Val::Str(vec!['x']))]),
+        2 => (None, vec![Arg::Expr(Val::Str(vec!['x'])), Arg::Semi]),
+        3 => (None, vec![Arg::Comma]),
+        _ => (Some("##".chars().collect()), vec![Arg::Expr(Val::Int(5))]),
+    };
+    Stmt { dev, fmt, args }
+}
+
+/// failing statement (10 shapes) x its device (screen, LPT1, file 1) x trap (ON ERROR RESUME NEXT; handler with RESUME
+/// NEXT, empty / with a bare PRINT of its own; handler repairing the operand + RESUME, empty / printing with a trailing
+/// semicolon on LPT1) x next statement (5 kinds) x its device (the same, screen, LPT1, file 2); the three error kinds rotate
+fn trap_matrix() -> Vec<TrapCase> {
+    let mut v = vec![];
+    let bare = |d: Dev| Stmt { dev: d, fmt: None, args: vec![] };
+    let mut rot = 0usize;
+    for shape in 0..TRAP_SHAPES.len() {
+        for dev in [Dev::Screen, Dev::Lpt1, Dev::File(1)] {
+            for tr in 0..5 {
+                let (trap, handler) = match tr {
+                    0 => (Trap::ResumeNext, vec![]),
+                    1 => (Trap::HandlerResumeNext, vec![]),
+                    2 => (Trap::HandlerResumeNext, vec![bare(Dev::Screen)]),
+                    3 => (Trap::HandlerRepairResume, vec![]),
+                    _ => (
+                        Trap::HandlerRepairResume,
+                        vec![Stmt { dev: Dev::Lpt1, fmt: None, args: vec![Arg::Expr(Val::Str(vec!['h'])), Arg::Semi] }],
+                    ),
+                };
+                if shape == 8 && trap == Trap::HandlerRepairResume {
+                    // a string for a numeric field fails again however often the statement is repeated
+                    continue;
+                }
+                for next in 0..TRAP_NEXTS.len() {
+                    for (j, ndev) in [dev, Dev::Screen, Dev::Lpt1, Dev::File(2)].into_iter().enumerate() {
+                        if j > 0 && ndev == dev {
+                            continue;
+                        }
+                        rot += 1;
+                        let k = [FailKind::DivZero, FailKind::Overflow, FailKind::Ifc][rot % 3];
+                        let mut stmts = vec![trap_shape(shape, dev, k), trap_next(next, ndev)];
+                        stmts.push(Stmt { dev, fmt: None, args: vec![Arg::Expr(Val::Str("after".chars().collect()))] });
+                        stmts.extend(marks(&[1, 2]));
+                        let funcs = if shape == 9 { vec![vec![bare(Dev::Screen)]] } else { vec![] };
+                        v.push(TrapCase {
+                            case: Case { part: "trapped", level: Level::Source, open: vec![1, 2], stmts, funcs },
+                            trap,
+                            handler: handler.clone(),
+                            fam: "matrix",
+                        });
+                    }
+                }
+            }
+        }
+    }
+    v
+}
+
+/// random histories of the call family's statements, about half of them with a failing item put somewhere in the list
+fn gen_trap_case(rng: &mut Rng) -> TrapCase {
+    let devs = [Dev::Screen, Dev::Lpt1, Dev::File(1), Dev::File(2), Dev::Screen];
+    loop {
+        let trap = *rng.pick(&[Trap::ResumeNext, Trap::HandlerResumeNext, Trap::HandlerRepairResume]);
+        let nfuncs = rng.below(2) as usize;
+        let funcs: Vec<Vec<Stmt>> = (0..nfuncs).map(|_| (0..rng.range(1, 2)).map(|_| loop {
+            // no error inside a function body: RESUME NEXT would go on inside the function, which is C05's subject
+            let st = gen_call_stmt(rng, &devs, 0, false);
+            if st.fmt.as_ref().map(|f| f.contains(&'#')).unwrap_or(true) {
+                break st;
+            }
+        }).collect()).collect();
+        let handler: Vec<Stmt> = if trap != Trap::ResumeNext && rng.chance(1, 3) {
+            vec![if rng.chance(1, 2) { Stmt { dev: *rng.pick(&devs), fmt: None, args: vec![] } } else { gen_call_stmt(rng, &devs, 0, false) }]
+        } else {
+            vec![]
+        };
+        let mut stmts = vec![];
+        for _ in 0..rng.range(3, 8) {
+            let mut st = if rng.chance(1, 5) {
+                Stmt { dev: *rng.pick(&devs), fmt: None, args: vec![] }
+            } else {
+                gen_call_stmt(rng, &devs, nfuncs, false)
+            };
+            if rng.chance(1, 2) {
+                let k = if st.fmt.is_some() {
+                    *rng.pick(&[FailKind::DivZero, FailKind::Overflow])
+                } else {
+                    *rng.pick(&[FailKind::DivZero, FailKind::Overflow, FailKind::Ifc])
+                };
+                // in place of a value, or as a new last item (after a separator)
+                let values: Vec<usize> =
+                    st.args.iter().enumerate().filter(|(_, a)| matches!(a, Arg::Expr(_) | Arg::Call(..))).map(|(j, _)| j).collect();
+                if !values.is_empty() && rng.chance(2, 3) {
+                    let j = *rng.pick(&values);
+                    st.args[j] = Arg::Fail(k);
+                } else {
+                    if matches!(st.args.last(), Some(Arg::Expr(_)) | Some(Arg::Call(..))) {
+                        st.args.push(if rng.chance(1, 2) { Arg::Semi } else { Arg::Comma });
+                    }
+                    st.args.push(Arg::Fail(k));
+                    if rng.chance(1, 3) {
+                        st.args.push(if rng.chance(1, 2) { Arg::Semi } else { Arg::Comma });
+                    }
+                }
+            }
+            stmts.push(st);
+        }
+        stmts.extend(marks(&[1, 2]));
+        let tc = TrapCase { case: Case { part: "trapped", level: Level::Source, open: vec![1, 2], stmts, funcs }, trap, handler, fam: "random" };
+        // a statement that fails again after the repair (a format without a field) would be repeated for ever
+        if reference::run_trapped(&tc.case, trap == Trap::HandlerRepairResume, &tc.handler).status == "ok" {
+            return tc;
+        }
+    }
+}
+
+/// The history laid out for the model (`print.runt`): whole statements and `(ab k stmt)` = abandoned in front of item
+/// `k`, in the order they are executed (failing statement, the handler's statements, then the next statement or the
+/// same one again with its operands repaired). Only for histories without function calls whose only errors are the
+/// failing items (an error of PRINT USING itself stops the model's run; where a trapped run continues is C05's subject).
+fn trap_sx(tc: &TrapCase) -> Option<String> {
+    let c = &tc.case;
+    if !c.funcs.is_empty() || c.stmts.iter().chain(tc.handler.iter()).any(|s| !reference::completes_when_fixed(s)) {
+        return None;
+    }
+    let mut items: Vec<String> = vec![];
+    let mut fixed = false;
+    let mut k = 0;
+    while k < c.stmts.len() {
+        let s = &c.stmts[k];
+        let fail_at = if fixed { None } else { s.args.iter().position(|a| matches!(a, Arg::Fail(_))) };
+        match fail_at {
+            None => {
+                items.push(stmt_sx(s));
+                k += 1;
+            }
+            Some(j) => {
+                items.push(format!("(ab {} {})", j, stmt_sx(s)));
+                items.extend(tc.handler.iter().map(stmt_sx));
+                if tc.trap == Trap::HandlerRepairResume {
+                    fixed = true;
+                } else {
+                    k += 1;
+                }
+            }
+        }
+    }
+    let handles = c.open.iter().map(|h| h.to_string()).collect::<Vec<_>>().join(" ");
+    Some(format!("(print.runt ({}) ({}))", handles, items.join("")))
+}
+
+/// the first sink on which the real run differs from the reference (or "status")
+fn trap_diff(tc: &TrapCase, worker: usize) -> Option<(String, String, String, String)> {
+    let text = trap_source(tc, worker);
+    let real = run_real_text(&text, &tc.case.open, worker);
+    let want = reference::run_trapped(&tc.case, tc.trap == Trap::HandlerRepairResume, &tc.handler);
+    if real.status != want.status {
+        return Some(("status".into(), text, real.status, want.status));
+    }
+    for k in 0..want.sinks.len().max(real.sinks.len()) {
+        let r = real.sinks.get(k).cloned().unwrap_or_default();
+        let w = want.sinks.get(k).cloned().unwrap_or_default();
+        if r != w {
+            return Some((sink_name(k).to_owned(), text, show(&r), show(&w)));
+        }
+    }
+    None
+}
+
+fn check_trap_batch(cases: &[TrapCase], worker: usize) -> Partial {
+    let mut p = Partial::default();
+    // the model's run of the histories it can express
+    let with_model: Vec<(usize, String)> = cases.iter().enumerate().filter_map(|(k, tc)| trap_sx(tc).map(|r| (k, r))).collect();
+    let reqs: Vec<String> = with_model.iter().map(|x| x.1.clone()).collect();
+    let mut answers = None;
+    for _ in 0..5 {
+        if let Ok(a) = std::panic::catch_unwind(|| ask(&reqs)) {
+            answers = Some(a);
+            break;
+        }
+        std::thread::sleep(std::time::Duration::from_millis(2000));
+    }
+    let answers = answers.unwrap_or_else(|| ask(&reqs));
+    for ((k, req), ans) in with_model.iter().zip(answers.iter()) {
+        let tc = &cases[*k];
+        let text = trap_source(tc, worker);
+        let real = run_real_text(&text, &tc.case.open, worker);
+        match parse_answer(ans) {
+            None => p.failures.push(Failure {
+                kind: Kind::ModelVsImpl,
+                signature: "model:bad-answer".into(),
+                input: req.clone(),
+                implementation: String::new(),
+                expected: ans.clone(),
+                note: "the driver did not answer the request".into(),
+            }),
+            Some(m) => compare(&mut p, Kind::ModelVsImpl, &tc.case, &text, &real, &m.outcome, "RbModel.Print.lowerProgramT (Lean)"),
+        }
+    }
+    let modelled: std::collections::BTreeSet<usize> = with_model.iter().map(|x| x.0).collect();
+    for (idx, tc) in cases.iter().enumerate() {
+        let mut keys: Vec<&'static str> = vec![if tc.fam == "matrix" { "trapped.matrix" } else { "trapped.random" }];
+        keys.push(match tc.trap {
+            Trap::ResumeNext => "trapped.on-error-resume-next",
+            Trap::HandlerResumeNext => "trapped.handler-resume-next",
+            Trap::HandlerRepairResume => "trapped.handler-repair-resume",
+        });
+        if tc.case.stmts.iter().any(|s| s.args.iter().any(|a| matches!(a, Arg::Fail(_)))) {
+            keys.push("trapped.with-failing-item");
+        }
+        if modelled.contains(&idx) {
+            keys.push("trapped.compared-with-model");
+        }
+        let Some((what, text, _, _)) = trap_diff(tc, worker) else {
+            p.cases.push((Some(trap_source(tc, 0)), keys));
+            if p.sample.is_none() && tc.fam == "random" {
+                p.sample = Some(format!("[trapped] {}", trap_source(tc, 0).replace('\n', " : ")));
+            }
+            continue;
+        };
+        p.cases.push((Some(text), keys));
+        // shrink: statements (and the handler's) are dropped while the real run still differs from the reference
+        let mut best = tc.clone();
+        let mut changed = true;
+        while changed {
+            changed = false;
+            let mut j = best.case.stmts.len();
+            while j > 0 {
+                j -= 1;
+                let mut cand = best.clone();
+                cand.case.stmts.remove(j);
+                if trap_diff(&cand, worker).is_some() {
+                    best = cand;
+                    changed = true;
+                }
+            }
+            if !best.handler.is_empty() {
+                let mut cand = best.clone();
+                cand.handler.clear();
+                if trap_diff(&cand, worker).is_some() {
+                    best = cand;
+                    changed = true;
+                }
+            }
+        }
+        let (bw, btext, breal, bwant) = trap_diff(&best, worker).expect("the shrunk history still differs");
+        p.failures.push(Failure {
+            kind: Kind::ImplVsProperty,
+            signature: format!("trapped:{}:{}", tc.trap.name(), what),
+            input: btext,
+            implementation: breal,
+            expected: bwant,
+            note: format!(
+                "a PRINT statement abandoned by a trapped error: {} differs, expected by the column rules (Rust reference); \
+                 shrunk from a history of {} statements ({})",
+                bw,
+                tc.case.stmts.len(),
+                tc.fam
+            ),
+        });
+    }
+    p
+}
+
 fn zone_cases() -> Vec<Case> {
     let mut v = vec![];
     let devs = [Dev::Screen, Dev::Lpt1, Dev::File(1), Dev::File(2)];
@@ -1238,6 +1749,7 @@ fn check_batch(cases: &[Case], worker: usize) -> Partial {
 }
 
 enum Work {
+    Trapped(Vec<TrapCase>),
     List(Vec<Case>),
     Using(Level, usize, u64, u64),
 }
@@ -1255,6 +1767,11 @@ fn run_work(work: Vec<Work>, rep: &mut Report) {
                     let item = queue.lock().unwrap().pop();
                     let Some(item) = item else { break };
                     let cases: Vec<Case> = match item {
+                        Work::Trapped(v) => {
+                            let p = check_trap_batch(&v, w);
+                            results.lock().unwrap().push(p);
+                            continue;
+                        }
                         Work::List(v) => v,
                         Work::Using(level, len, a, b) => (a..b).flat_map(|i| using_cases(level, len, i)).collect(),
                     };
@@ -1328,7 +1845,11 @@ fn main() {
         "a case is one program: a history of PRINT / LPRINT / PRINT #n statements (with or without USING) over screen, LPT1 \
          and two files, run on the real code and compared on all four sinks and the termination status with the Lean model \
          and with the column rules written in Rust; class = the program (statements, operands, devices) and the level \
-         (source / hand-lowered instructions); trivial = nothing is written anywhere and the run succeeds.",
+         (source / hand-lowered instructions); trivial = nothing is written anywhere and the run succeeds. Family trapped: \
+         histories in which a statement fails in the middle of its list (after ; after , first item, USING value, after a \
+         call) under ON ERROR RESUME NEXT / a handler with RESUME NEXT / a handler repairing the operand + RESUME, every kind \
+         of next statement on the same and on another device, compared with the reference (what was written before the \
+         failing item stays, the abandoned statement writes nothing more, in particular no CR LF).",
     );
     let thorough = rep.is_thorough();
     // private scratch directory for the two files
@@ -1354,6 +1875,27 @@ fn main() {
     let n_calls = if thorough { 40_000 } else { 3_000 };
     let calls: Vec<Case> = (0..n_calls).map(|_| gen_call_case(&mut rng)).collect();
     run_work(chunked(calls, 200), &mut rep);
+
+    // ---- 1c. statements abandoned by a trapped error in the middle of their list ---------------------------
+    let matrix = trap_matrix();
+    rep.exhaustive_parts.push(format!(
+        "PRINT statement abandoned by a trapped run-time error: position of the failing item ({}) x device (screen, LPT1, \
+         file) x trap (ON ERROR RESUME NEXT; handler + RESUME NEXT, empty / printing; handler repairing the operand + \
+         RESUME, empty / printing) x next statement ({}) x its device (same, screen, LPT1, other file), error kinds \
+         division by zero / overflow / illegal function call rotating ({} programs)",
+        TRAP_SHAPES.join(", "),
+        TRAP_NEXTS.join(", "),
+        matrix.len()
+    ));
+    let n_trap = if thorough { 30_000 } else { 1_500 };
+    let mut trapped: Vec<TrapCase> = (0..n_trap).map(|_| gen_trap_case(&mut rng)).collect();
+    trapped.extend(matrix);
+    let mut tw = vec![];
+    let mut it = trapped.into_iter().peekable();
+    while it.peek().is_some() {
+        tw.push(Work::Trapped(it.by_ref().take(100).collect()));
+    }
+    run_work(tw, &mut rep);
 
     // ---- 2. zone arithmetic, enumerated -------------------------------------------------------------
     let zones = zone_cases();
